@@ -10,6 +10,9 @@ import Driver.Ops.Finish
 import Driver.Ops.Mfe
 import Driver.Ops.Ssm
 import Driver.Ops.Subst
+import Driver.Ops.ParseComp
+import Driver.Ops.ParsePil
+import Driver.Ops.ParseSys
 /-! Registry of operation handlers: each model area adds one import above and one entry below. -/
 open Lean
 namespace Pepper.Driver
@@ -25,7 +28,10 @@ def handlers : List (String → Json → Option Json) := [
   FinishOps.handle?,
   MfeOps.handle?,
   Ssm.handle?,
-  Subst.handle?
+  Subst.handle?,
+  ParseCompOps.handle?,
+  ParsePilOps.handle?,
+  ParseSysOps.handle?
 ]
 
 def handle (j : Json) : Json :=
